@@ -90,14 +90,59 @@ def run_unit(unit, tier):
     for pi in range(unit[0], unit[1]):
         p, fam = ps[pi]
         docs = family(fam)
+        live = Live(p)
         for di, doc in enumerate(docs):
             check_case(res, p, doc, key=(pi, di))
+            live.step(res, doc)
     res.sample({"path": ps[unit[0]][0], "doc": family(ps[unit[0]][1])[0]})
     return res
 
 
+class Live:
+    """One path object and one list / one mapping that live as long as the unit works on this path: the owner edits
+    the container in place into each document of the family in turn, the same path object resolves it again each
+    time.  What comes back must be what the container holds now."""
+
+    def __init__(self, p):
+        self.p = p
+        self.cont = {list: [], dict: {}}
+        self.seen = []
+        try:
+            self.path = T.build_path(p)
+        except BaseException:
+            self.path = None        # (reported by check_case)
+
+    def step(self, res, doc):
+        if self.path is None:
+            return
+        c = self.cont[type(doc)]
+        new = fresh(doc)
+        if isinstance(c, list):
+            c[:] = new
+        else:
+            c.clear()
+            c.update(new)
+        p = self.p
+        case = {"path": p, "doc": doc, "live": True}
+        res.count("transitions")
+        res.count("live_container_steps")
+        sel = ref.walk(p, c)
+        try:
+            got = self.path.get_data(c)
+        except BaseException as e:
+            res.violation("raises:%s:live:%s" % (type(e).__name__, shape(p)), "%s (one path object, one container edited in place) "
+                          "raised %r on %r" % (T.show(p), e, doc), case, observed=repr(e))
+            self.path = None
+            return
+        if not compare(res, got, sel, ref.is_concrete(p), p, doc, case, "live-container", identity=bool(p[1])):
+            self.path = None
+
+
 def replay(case):
     res = Result()
+    if case.get("live"):
+        Live(case["path"]).step(res, case["doc"])
+        return list(res.violations.values())
     for p in case.get("history", []):      # re-create the history (everything resolved before, in this process)
         for doc in CONF_DOCS:
             check_case(Result(), p, doc, key=("replay-h",))
